@@ -27,6 +27,12 @@ def plan(tier):
     if tier == "thorough":
         pl += [(PG.shutdown_form(1, f, 1, 0.05), 2, PT) for f in ("wait", "nowait", "del", "exit")]
         pl += [(PG.shutdown_form(2, "wait", 2, None), 2, dict(kinds=("P",)))]
+    # source-line granularity (one preemption at any line of loky run by a parent thread)
+    pl += simcheck.line_plan([PG.submit_vs_shutdown(1, True), PG.submit_vs_shutdown(1, False),
+                              PG.shutdown_form(1, "nowait", 2, None)])
+    if tier == "thorough":
+        pl += simcheck.line_plan([p for p, _, _ in pl])
+        pl += simcheck.line_plan([PG.submit_vs_shutdown(1, True)], bound=2, starve="parent:user")
     return pl
 
 
